@@ -413,7 +413,7 @@ func checkC17(w *World, r *Report) {
 	c01WriteCountsRule(w, r, "R17.7")
 	r.Rule("R17.8", "a deadline armed on a connection is disarmed in both directions before the connection lives on as a session (a left-over write deadline loses the target's answer and the end-of-stream)", 1)
 	ruleDeadlinePairing(w, r, "R17.8")
-	r.Rule("R17.11", "sequence and ack numbers of the DNS carrier are used only in wrap-safe ways (a transfer that crosses 65536 chunks still drains and ends)", 10)
+	r.Rule("R17.11", "sequence and ack numbers of the DNS carrier are used only in wrap-safe ways (a transfer that crosses 65536 chunks still drains and ends)", 6)
 	ruleWrapSafe(w, r, "R17.11", dnsPkgFuncs(w))
 	r.Rule("R17.10", "a websocket read limit, if any, admits the largest message the tunnel's own Write sends (else a bulk transfer ends in what looks like a clean end-of-stream)", 1)
 	ruleWsReadLimit(w, r, "R17.10")
